@@ -28,6 +28,9 @@ ASSUMPTIONS = [
     'near-ties (|delta corr| < 1e-9, 1e-5 for float32 input) and constant '
     'vectors are don\'t-care and counted',
     'statistics file written by the harness; means = sum/n_cells',
+    '"round" is read as Python / numpy define it on the double product '
+    'factor*n: an exact .5 goes to the even neighbour (0.5 x 5 -> 2, '
+    '0.9 x 5 -> 4); visits at an exact .5 are counted',
 ]
 
 
